@@ -9,7 +9,7 @@ import math
 import struct
 
 __all__ = ["forall", "exists", "implies", "ite", "seq_eq_at", "unchanged", "is_nan", "is_finite", "f32_round",
-           "float_eq", "f32_bytes", "f64_bytes", "ghost", "fresh_int", "f32_of_bytes", "f64_of_bytes", "prefix_sum"]
+           "float_eq", "f32_bytes", "f64_bytes", "ghost", "fresh_int", "f32_of_bytes", "f64_of_bytes", "prefix_sum", "fresh_bool"]
 
 
 def forall(lo, hi, fn):
@@ -89,3 +89,7 @@ def f64_of_bytes(data, pos):
 def prefix_sum(seq, i):
     """seq[0] + ... + seq[i-1]"""
     return sum(seq[:i])
+
+
+def fresh_bool(name="b"):
+    raise NotImplementedError("fresh_bool has no concrete meaning (nondeterministic choice of the environment)")
